@@ -1272,3 +1272,62 @@ func vH_C19_floatbattery() {
 		}
 	}
 }
+
+// ---- C17: slice / map helpers on small trees ---------------------------------
+func vSanitizeRefTree(v interface{}) interface{} {
+	switch x := v.(type) {
+	case string:
+		return string(vRefSanitizeUTF8([]byte(x), nil))
+	case []interface{}:
+		out := make([]interface{}, len(x))
+		for i := 0; i < len(x); i++ {
+			out[i] = vSanitizeRefTree(x[i])
+		}
+		return out
+	case map[string]interface{}:
+		out := map[string]interface{}{}
+		for k, w := range x {
+			out[string(vRefSanitizeUTF8([]byte(k), nil))] = vSanitizeRefTree(w)
+		}
+		return out
+	}
+	return v
+}
+
+// two structurally identical trees built from the same bytes: one is passed to the helper,
+// the other is the untouched copy the argument is compared with afterwards
+func vBuildTree(d []byte, shape int) interface{} {
+	s1 := string(d[0:2])
+	s2 := string(d[2:3])
+	s3 := string(d[3:4])
+	k := string(d[4:5])
+	switch shape {
+	case 0:
+		return []interface{}{s1, []interface{}{s2, []interface{}{s3}}, 1.5, nil}
+	case 1:
+		return map[string]interface{}{k: s1, "in": map[string]interface{}{"x": []interface{}{s2}}, "b": true}
+	case 2:
+		return []interface{}{map[string]interface{}{k: []interface{}{s1, s2}}, s3}
+	}
+	return map[string]interface{}{"a": []interface{}{[]interface{}{s1}, map[string]interface{}{k: s2}}, "z": s3}
+}
+
+func vH_C17_tree(d []byte, shape int) {
+	arg := vBuildTree(d, shape)
+	pristine := vBuildTree(d, shape)
+	want := vSanitizeRefTree(pristine)
+	var got interface{}
+	switch x := arg.(type) {
+	case []interface{}:
+		got = StdLibCompatibleSlice(x)
+	case map[string]interface{}:
+		// keys must not collide after replacement for the comparison to be meaningful
+		got = StdLibCompatibleMap(x)
+	}
+	vReach("C17.tree")
+	vAssert(vTreeEq(got, want), "C17.tree-result")
+	vAssert(vTreeEq(arg, pristine), "C17.tree-argument-unmodified")
+	// the result is a deep copy: changing it must not change the argument
+	vMutate(got)
+	vAssert(vTreeEq(arg, pristine), "C17.tree-result-independent")
+}
